@@ -18,12 +18,27 @@ pub struct CountWaker {
     pub count: AtomicUsize,
 }
 
+thread_local! {
+    /// optional one-shot hook run from INSIDE a wake-up on this thread (an executor that polls the woken task inline)
+    #[allow(clippy::type_complexity)]
+    pub static WAKE_HOOK: std::cell::RefCell<Option<Box<dyn FnOnce(usize, Waker)>>> = std::cell::RefCell::new(None);
+}
+
+fn run_wake_hook(w: &Arc<CountWaker>) {
+    let hook = WAKE_HOOK.with(|h| h.borrow_mut().take());
+    if let Some(hook) = hook {
+        hook(w.id, Waker::from(w.clone()));
+    }
+}
+
 impl Wake for CountWaker {
     fn wake(self: Arc<Self>) {
         self.count.fetch_add(1, Ordering::SeqCst);
+        run_wake_hook(&self);
     }
     fn wake_by_ref(self: &Arc<Self>) {
         self.count.fetch_add(1, Ordering::SeqCst);
+        run_wake_hook(self);
     }
 }
 
